@@ -99,6 +99,7 @@ def run_circular_binseg(
         anomaly_starts[i] = anomaly_start_candidates[argmax]
         anomaly_ends[i] = anomaly_end_candidates[argmax]
 
+    maximizers = np.column_stack((anomaly_starts, anomaly_ends))
     anomalies = greedy_anomaly_selection(
         anomaly_scores, anomaly_starts, anomaly_ends, starts, ends, threshold
     )
